@@ -240,7 +240,7 @@ func verifyFunction(w *World, fn *ssa.Function, spec *FuncSpec) (vc *VC) {
 				if !changed || declared[g.Name] || cur == compInit(g.Name) {
 					continue
 				}
-				if pre, priv := vc.db.Private[g.Name]; priv && !strings.HasPrefix(spec.Pkg, pre) {
+				if pre, priv := vc.db.Private[g.Name]; priv && !hasAnyPrefix(spec.Pkg, pre) {
 					continue // private ghost state of another package: no contract here can mention it
 				}
 				if e0, ok := fr.entry.m[g.Name]; ok && e0 == cur {
